@@ -78,7 +78,8 @@ def replay(ctx: Ctx, recs: List[Dict[str, Any]]) -> None:
                     close(ctx, "scheme:brownian", "generate_brownian differs from X0 + mu t + sigma W_t on the supplied normals", got, exp, rs, {"sigma": sigma, "mu": mu, "dt": dt})
                 else:
                     got = generate_geometric_brownian(N, T, init_state=(x0,), sigma=sigma, mu=mu, dt=dt, dtype=DT, engine=scripted_engine([Z]))
-                    exp = x0 * torch.exp((mu - sigma ** 2 / 2) * dt * ks + sigma * math.sqrt(dt) * S)
+                    dc = rs[0]["drift"]            # drift coefficients of the specification over (mu, sigma^2/2, lambda E[e^J - 1])
+                    exp = x0 * torch.exp((dc[0] * mu + dc[1] * sigma ** 2 / 2) * dt * ks + sigma * math.sqrt(dt) * S)
                     close(ctx, "scheme:gbm", "generate_geometric_brownian differs from S0 exp((mu - sigma^2/2) t + sigma W_t) on the supplied normals", got, exp, rs, {"sigma": sigma, "mu": mu, "dt": dt})
                     # jump models with zero intensity reduce to it on the same normals
                     gm = generate_merton_jump(N, T, init_state=(x0,), sigma=sigma, mu=mu, dt=dt, jump_per_year=0.0, dtype=DT, engine=scripted_engine([torch.zeros(N, T - 1, dtype=DT), Z]))
@@ -96,7 +97,8 @@ def replay(ctx: Ctx, recs: List[Dict[str, Any]]) -> None:
                 with patched(tp.Poisson, "sample", lambda self, shape=torch.Size(): NJ.clone()):
                     got = generate_merton_jump(N, T, init_state=(1.25,), sigma=sigma, mu=mu, dt=dt, jump_per_year=lam, jump_mean=jm, jump_std=js,
                                                dtype=DT, engine=scripted_engine([Y, Z]))
-                drift = (mu - sigma ** 2 / 2 - lam * (math.exp(jm + js ** 2 / 2) - 1)) * dt
+                dc = rs[0]["drift"]
+                drift = (dc[0] * mu + dc[1] * sigma ** 2 / 2 + dc[2] * lam * (math.exp(jm + js ** 2 / 2) - 1)) * dt
                 exp = 1.25 * torch.exp(drift * ks + sigma * math.sqrt(dt) * S + jm * SN + js * SY)
                 close(ctx, "scheme:merton", "generate_merton_jump differs from the compensated jump-diffusion solution on the supplied normals and jump counts", got, exp, rs,
                       {"sigma": sigma, "mu": mu, "lambda": lam, "jump_mean": jm, "jump_std": js})
